@@ -20,7 +20,7 @@ var explainAddenda = map[string]string{
 	"C17": "(idle-exempt) per-connection state other than lastActivity on which the idle sweep branches is cleared again on every path of the connection loop before the instruction that set it is reached again (a flag left set by one path keeps an idle connection out of the sweep for good).",
 	"C20": "(join-before-restart) in Resize a call that reaches WaitGroup.Wait precedes the restart on every path on which the pool was running; (received-resolved) in the worker every path from the receive of a task executes it and delivers the result (or finds ResultChan nil) before the worker returns or selects again — a received task is out of the queue, so no drain can resolve it.",
 	"C22": "(ack-on-success) handleWrite's NFS3_OK reply is reachable only from the edge on which the write call returned no error.",
-	"C23": "The advertised wtmax/wtpref are computed from TransferSize only by operations that cannot enlarge it (conversion, selection, constant cap, division, subtraction, shift right, mask); (record-limit) RecordMarkingReader.MaxRecordSize is only ever set to the constant the FSINFO cap is derived from.",
+	"C23": "The advertised wtmax/wtpref are computed from TransferSize only by operations that cannot enlarge it (conversion, selection, constant cap, division, subtraction, shift right, mask); (record-limit) RecordMarkingReader.MaxRecordSize is only ever set to the constant the FSINFO cap is derived from; (count-raw) every comparison in handleWrite that refuses a request on its count tests the count itself or a value that cannot exceed it (a padded or rounded-up length would refuse counts the advertised maximum admits).",
 	"C24": "(atomic-callee) every PolicyOptions field on which UpdatePolicyOptions can refuse is pinned by UpdateExportOptions to the current policy's value or validated there, by the same function, before the first mutation; (in-force) every TuningOptions field New reads to build or configure a component is also read from the updated record in applyTuningSideEffects; (defaults-before-effects) in UpdateTuningOptions the normalisation precedes applyTuningSideEffects.",
 	"C25": "(over-limit-edge) from the edge on which a request quantity exceeds a MaxFileSize-derived bound no size-increasing backend call is reachable (a guard weakened by a second conjunct fails); (swap, borrowed from C16) a limit set at run time only binds if the accepted policy update is stored: every successful return of UpdatePolicyOptions has stored the new policy, except behind a comparison that reads every PolicyOptions field.",
 	"C26": "(entry-size) the stop test's estimate is a linear expression Len + K + pad4(len(name)) whose constant covers the fixed bytes the loop appends per entry plus the bytes appended after the loop minus the status word, all sizes read from the reply trace (or the entry is measured by encoding it); (toosmall-edge) a NFS3ERR_TOOSMALL reply is reachable from the does-not-fit edge of the loop's stop test.",
